@@ -45,8 +45,10 @@ def random_state(rng, field, grad=0.2):
 def make_field(kind, fam, geometry, rng):
     import felupe as fem
     mesh, _ = gen.build_mesh(fam, geometry, rng)
-    if kind == "axisymmetric":
-        mesh = mesh.copy(points=mesh.points + np.array([0.0, 1.5 - mesh.points[:, 1].min()]))
+    if kind.endswith("axisymmetric"):
+        # keep the body away from the axis, in units of its own size (the affine class scales meshes from 4e-3 to 250)
+        size = float(np.ptp(mesh.points[:, 1]))
+        mesh = mesh.copy(points=mesh.points + np.array([0.0, 1.5 * size - mesh.points[:, 1].min()]))
     reg = gen.make_region(fam, mesh)
     d = mesh.dim
     if kind == "3d" or (kind == "plain" and d == 3):
@@ -376,6 +378,112 @@ def case_formitem(rep):
     return fn
 
 
+def case_wider(which, rep):
+    """Item / field / family combinations of the quantifier that the main plan leaves out (second coverage audit)."""
+    def fn(run):
+        import felupe as fem
+        rng = rng_for(run.seed, "C01", "wider", which, rep)
+        if which.startswith("quadratic-boundary"):
+            # follower loads on the quadratic boundary templates
+            fam, Rv, Rb, kind = [("hexahedron20", "RegionQuadraticHexahedron", "RegionQuadraticHexahedronBoundary", "3d"),
+                                 ("hexahedron27", "RegionTriQuadraticHexahedron", "RegionTriQuadraticHexahedronBoundary", "3d"),
+                                 ("quad8", "RegionQuadraticQuad", "RegionQuadraticQuadBoundary", "planestrain"),
+                                 ("quad9", "RegionBiQuadraticQuad", "RegionBiQuadraticQuadBoundary", "axisymmetric"),
+                                 ("quad8", "RegionQuadraticQuad", "RegionQuadraticQuadBoundary", "axisymmetric"),
+                                 ("quad9", "RegionBiQuadraticQuad", "RegionBiQuadraticQuadBoundary", "planestrain")][rep % 6]
+            mesh, _ = gen.build_mesh(fam, ["distorted", "curved"][rep % 2], rng)
+            if kind != "3d":
+                mesh = mesh.copy(points=mesh.points + np.array([0.0, 1.5 - mesh.points[:, 1].min()]))
+            reg = getattr(fem, Rv)(mesh)
+            closed = bool((rep // 2) % 2)
+            mask = None if closed else np.isclose(mesh.points[:, 0], mesh.points[:, 0].max())
+            if kind == "3d":
+                field = fem.FieldContainer([fem.Field(reg, dim=3)])
+                fb = fem.FieldContainer([fem.Field(getattr(fem, Rb)(mesh, mask=mask), dim=3)])
+            else:
+                F = fem.FieldAxisymmetric if kind == "axisymmetric" else fem.FieldPlaneStrain
+                field = fem.FieldContainer([F(reg, dim=2)])
+                fb = fem.FieldContainer([F(getattr(fem, Rb)(mesh, mask=mask, ensure_3d=True), dim=2)])
+            random_state(rng, field)
+            s = rng.standard_normal((3, 3))
+            loads = {"SolidBodyPressure": fem.SolidBodyPressure(fb, pressure=rng.uniform(-1, 1, fb.region.dV.shape) if rep % 3 == 0 else float(rng.uniform(-1, 1))),
+                     "SolidBodyCauchyStress": fem.SolidBodyCauchyStress(fb, cauchy_stress=s if rep % 2 else s + s.T)}
+            for name, load in loads.items():
+                evaluate(run, [load], field, "%s[%s]" % (name, Rb), rng, conservative=False, order=rep % 3)
+                run.configs.add(str((name, Rb, kind, closed)))
+        elif which == "mixed-list":
+            # loads / constraints sized by the displacement field summed into a system of a mixed container (Newton's resize)
+            mesh, _ = gen.build_mesh("hexahedron", "distorted", rng)
+            mesh.update(points=np.vstack([mesh.points, mesh.points.max(0) + np.array([0.0, 0.0, 0.4])]))
+            reg = fem.RegionHexahedron(mesh)
+            x = fem.FieldsMixed(reg, n=3)
+            random_state(rng, x)
+            top = np.arange(mesh.npoints - 1)[np.isclose(mesh.points[:-1, 2], mesh.points[:-1, 2].max())]
+            rb = fem.RegionHexahedronBoundary(mesh, mask=np.isclose(mesh.points[:, 0], mesh.points[:-1, 0].max()))
+            press = fem.SolidBodyPressure(fem.FieldContainer([fem.Field(rb, dim=3)]), pressure=float(rng.uniform(-1, 1)))
+            mpc = fem.MultiPointConstraint(x, points=top, centerpoint=mesh.npoints - 1, skip=[(0, 0, 0), (0, 1, 0)][rep % 2], multiplier=float(rng.uniform(10, 100)))
+            if rep % 2:
+                body = fem.SolidBody(fem.ThreeFieldVariation(fem.NeoHooke(mu=1.0, bulk=5.0)), x)
+                lists = [[press, body, mpc], [body, mpc, press]][(rep // 2) % 2]
+                evaluate(run, lists, x, "mixed-list[SolidBody(mixed)+pressure+constraint]", rng, conservative=False, order=rep % 3)
+            else:
+                f1 = fem.FieldContainer([fem.Field(reg, dim=3)])
+                f1[0].values[:] = x[0].values
+                body = fem.SolidBodyNearlyIncompressible(fem.NeoHooke(mu=1.0), f1, bulk=float(rng.uniform(20, 200)))
+                mpc1 = fem.MultiPointConstraint(f1, points=top, centerpoint=mesh.npoints - 1, multiplier=float(rng.uniform(10, 100)))
+                evaluate(run, [body, press, mpc1], f1, "mixed-list[condensed+pressure+constraint]", rng, conservative=False, order=0)
+            run.configs.add(str(("mixed-list", rep % 2)))
+        elif which == "multipoint-2d":
+            # constraints / contact on 2D fields, negative centre index (documented), mixed unknowns
+            kind = ["planestrain", "axisymmetric", "mixed-axisymmetric"][rep % 3]
+            mesh = fem.Rectangle(a=(0, 1.0), b=(1, 2.0), n=(4, 3))
+            mesh.update(points=np.vstack([mesh.points, [1.4, 1.5]]))
+            reg = fem.RegionQuad(mesh)
+            if kind.startswith("mixed"):
+                field = fem.FieldsMixed(reg, n=3, axisymmetric=True)
+            else:
+                field = fem.FieldContainer([(fem.FieldAxisymmetric if kind == "axisymmetric" else fem.FieldPlaneStrain)(reg, dim=2)])
+            field[0].values[:] = 0.03 * rng.standard_normal(field[0].values.shape)
+            top = np.arange(mesh.npoints - 1)[np.isclose(mesh.points[:-1, 0], 1.0)]
+            c = [-1, mesh.npoints - 1][rep % 2]
+            contact = bool((rep // 2) % 2)
+            if contact:
+                field[0].values[top[::2], 0] += 0.6
+                gap = (mesh.points[-1, 0] + field[0].values[-1, 0]) - (mesh.points[top, 0] + field[0].values[top, 0])
+                if np.any(np.abs(gap) < 0.1):
+                    run.skip("items.tangent", "contact gap too close to the switching point")
+                    return
+                it = fem.MultiPointContact(field, points=top, centerpoint=c, skip=(0, 1), multiplier=float(rng.uniform(10, 100)))
+            else:
+                it = fem.MultiPointConstraint(field, points=top, centerpoint=c, skip=[(0, 0), (0, 1), (1, 0)][rep % 3], multiplier=float(rng.uniform(10, 100)))
+            evaluate(run, [it], field, "%s[2d]" % type(it).__name__, rng, conservative=True, order=rep % 3)
+            run.configs.add(str((type(it).__name__, kind, c)))
+        elif which == "families":
+            # mixed / condensed bodies on further families, bodies on arbitrary-order Lagrange regions
+            sel = rep % 8
+            if sel < 4:
+                kind, fam = [("mixed", "tetraMINI"), ("mixed-axisymmetric", "triangleMINI"), ("mixed-planestrain", "triangle6"), ("mixed", "hexahedron27")][sel]
+                field, mesh, reg = make_field(kind, fam, "distorted" if fam == "hexahedron27" else "affine", rng)
+                random_state(rng, field)
+                um = fem.NearlyIncompressible(fem.NeoHooke(mu=1.0), bulk=7.0) if rep % 2 else fem.ThreeFieldVariation(fem.NeoHooke(mu=1.0, bulk=7.0))
+                evaluate(run, [fem.SolidBody(um, field)], field, "SolidBody[mixed,%s]" % fam, rng, conservative=True, order=rep % 3)
+            elif sel < 6:
+                kind, fam = [("3d", "tetra10"), ("axisymmetric", "triangle6")][sel - 4]
+                field, mesh, reg = make_field(kind, fam, "affine", rng)
+                random_state(rng, field)
+                evaluate(run, [fem.SolidBodyNearlyIncompressible(fem.NeoHooke(mu=1.0), field, bulk=float(rng.uniform(20, 200)))], field,
+                         "SolidBodyNearlyIncompressible[%s]" % fam, rng, conservative=True, order=0)
+            else:
+                dim, order = [(2, 3), (3, 2)][sel - 6]
+                m = gen.lagrange_mesh(order, dim)
+                reg = fem.RegionLagrange(m, order=order, dim=dim)
+                field = fem.FieldContainer([fem.Field(reg, dim=dim)])
+                field[0].values[:] = gen.random_displacement(rng, m, grad=0.2, noise=0)
+                evaluate(run, [fem.SolidBody(fem.NeoHookeCompressible(mu=1.0, lmbda=2.0), field)], field, "SolidBody[RegionLagrange]", rng, conservative=True, order=rep % 3)
+            run.configs.add(str(("families", sel)))
+    return fn
+
+
 def cases(tier, seed):
     out = []
     reps = 1 if tier == "quick" else 3
@@ -419,6 +527,9 @@ def cases(tier, seed):
     for contact in (False, True):
         for rep in range(10 if contact else 6):
             out.append(("mpc:%s:%d" % (contact, rep), case_multipoint(contact, rep)))
+    for which, n in (("quadratic-boundary", 6), ("mixed-list", 4), ("multipoint-2d", 6), ("families", 8)):
+        for rep in range(n if tier == "quick" else 3 * n):
+            out.append(("wider:%s:%d" % (which, rep), case_wider(which, rep)))
     for rep in range(2):
         out.append(("dead:%d" % rep, case_dead_loads(rep)))
         out.append(("formitem:%d" % rep, case_formitem(rep)))
@@ -439,6 +550,12 @@ def _required():
     for u in ("SolidBody[Field]", "SolidBody[FieldPlaneStrain]", "SolidBody[FieldAxisymmetric]", "SolidBody[ThreeFieldVariation,mixed]",
               "SolidBodyNearlyIncompressible[3d]", "MultiPointConstraint", "MultiPointContact[closed]", "FormItem"):
         req.append("tangent-symmetry:" + u)
+    req += ["tangent:" + u for u in ("SolidBodyPressure[RegionQuadraticHexahedronBoundary]", "SolidBodyPressure[RegionTriQuadraticHexahedronBoundary]",
+                                     "SolidBodyPressure[RegionQuadraticQuadBoundary]", "SolidBodyPressure[RegionBiQuadraticQuadBoundary]",
+                                     "SolidBodyCauchyStress[RegionTriQuadraticHexahedronBoundary]", "mixed-list[SolidBody(mixed)+pressure+constraint]",
+                                     "mixed-list[condensed+pressure+constraint]", "MultiPointConstraint[2d]", "MultiPointContact[2d]",
+                                     "SolidBody[mixed,tetraMINI]", "SolidBody[mixed,triangleMINI]", "SolidBody[mixed,hexahedron27]",
+                                     "SolidBodyNearlyIncompressible[tetra10]", "SolidBody[RegionLagrange]")]
     req.append("multi-item-list-with-multiplier=-1")
     req += ["order:after-another-state", "order:foreign-container", "order:parallel", "solidbody-multiplier"]
     req += ["ni-umat:" + w for w in ("NeoHooke", "tt.yeoh", "NeoHookeCompressible", "OgdenRoxburgh")]
